@@ -104,6 +104,9 @@ pub fn cases(prop: &str, seed: u64, tier: &str) -> Vec<String> {
                 emit_text_queries(&mut out, m.as_bytes(), &mut r, 2, 2, 3);
             }
             corpus_queries(&mut out, &mut r, QuerySel { class: true, method: true, lines: true, params: true, all_lines: false, both_files: false }, b.thorough);
+            if b.thorough {
+                huge_cases(&mut out, &mut r);
+            }
             e1_blocks(&mut out, &mut r, None);
         }
         "C03" => {
@@ -668,6 +671,53 @@ pub fn cases(prop: &str, seed: u64, tier: &str) -> Vec<String> {
 }
 
 /// a few large mappings per run (class counts / group sizes around powers of two, long strings)
+/// huge structure (thorough tier): more than 65536 classes, more than 65536 members with distinct names in one
+/// class, more than 65536 entries under one name.  The model answers with the specification only.
+fn huge_cases(out: &mut Vec<String>, r: &mut Rng) {
+    let n = 70_001usize;
+    let idx = [0usize, 1, 9, 10, 32767, 32768, 65534, 65535, 65536, 65537, 69_999, 70_000];
+    let h = |s: &str| hex(s.as_bytes());
+    // A: many classes
+    let mut a = String::new();
+    for i in 0..n {
+        a.push_str(&format!("p.K{} -> k{}:\n    1:2:void m{}():5:6 -> f\n", i, i, i));
+    }
+    out.push(format!("M {}", hex(a.as_bytes())));
+    // (the specification's `blocks` is quadratic in the number of class blocks: ~100 s per query here, so
+    //  three queries go to the model, the rest compare mapper with cache only)
+    out.push(format!("K {}", h("k65536")));
+    out.push(format!("T {} {}", h("k65535"), h("f")));
+    out.push(format!("L {} {} 1 ~", h("k70000"), h("f")));
+    for &i in idx.iter().chain([70_001usize].iter()) {
+        out.push(format!("KI {}", h(&format!("k{}", i))));
+        out.push(format!("TI {} {}", h(&format!("k{}", i)), h("f")));
+        out.push(format!("LI {} {} {} ~", h(&format!("k{}", i)), h("f"), 1 + r.below(2)));
+        out.push(format!("PI {} {} {}", h(&format!("k{}", i)), h("f"), h("")));
+    }
+    // B: one class, many distinct member names
+    let mut b = String::from("p.Big -> b:\n");
+    for i in 0..n {
+        b.push_str(&format!("    {}:{}:void m{}():7 -> f{}\n", 1 + i % 3, 4 + i % 3, i, i));
+    }
+    out.push(format!("M {}", hex(b.as_bytes())));
+    for &i in idx.iter().chain([70_001usize].iter()) {
+        out.push(format!("T {} {}", h("b"), h(&format!("f{}", i))));
+        out.push(format!("L {} {} {} ~", h("b"), h(&format!("f{}", i)), 2 + r.below(3)));
+        out.push(format!("P {} {} {}", h("b"), h(&format!("f{}", i)), h("")));
+    }
+    // C: one class, one name, many entries with one-line ranges; 300 distinct originals
+    let mut c = String::from("p.Big -> b:\n");
+    for i in 0..n {
+        c.push_str(&format!("    {}:{}:void m{}():{} -> f\n", i + 1, i + 1, i % 300, 100 + i));
+    }
+    out.push(format!("M {}", hex(c.as_bytes())));
+    out.push(format!("T {} {}", h("b"), h("f")));
+    for &i in idx.iter().chain([70_001usize, 70_002].iter()) {
+        out.push(format!("L {} {} {} ~", h("b"), h("f"), i));
+    }
+    out.push(format!("P {} {} {}", h("b"), h("f"), h("")));
+}
+
 fn big_cases(out: &mut Vec<String>, r: &mut Rng, q: QuerySel, n: usize, with_bytes: bool) {
     for _ in 0..n {
         let m = gen_big_mapping(r);
